@@ -229,6 +229,8 @@ def execute(plan, tier, seed):
         if plan.require_ok_marker:
             for ob in plan.obs:
                 r = results[ob.oid]
+                if isinstance(plan.require_ok_marker, (set, frozenset, list, tuple)) and ob.family not in plan.require_ok_marker:
+                    continue
                 if ob.expect == "confirmed" and r["verdict"] == "confirmed" and "'ok'" not in r.get("witnesses", []):
                     r["verdict"] = "inconclusive"
                     r["why"] = "vacuous: no explored path ran the program to its normal end"
